@@ -14,6 +14,14 @@ CHECKS = {
    text='Explicit-state BFS over the real Manager+DBStore on storyline universes (every element-changing transaction kind x fork point x branch variant {empty, shifted, conflicting} x surplus x 3 hardfork regimes). In every distinct state the canonical store dump (index, states, blocks with supplements, element buckets, expiration lists in order, proofs served through SupplementTipTransaction and verified against the tip accumulator) must equal that of a fresh node fed the same best chain linearly; expiration lists are additionally compared with the reference ledger after every single block apply/revert inside reorgs.',
    note='One recorded known finding (expiration-list order after reverting a swap-removal, pinned by the repository\'s own test); any other divergence is a violation. Tree bucket compared via served proofs. Depth/size bounds as in evidence.',
    technique='explicit-state model checking of the implementation with a differential twin oracle (linear-replay node) and block-granular reference-ledger comparison', design='§3 E1, §4 C02, §5.1'),
+ 'C03': dict(level='fault_enumeration', engine='chainmc',
+   text='Crash-point enumeration: for every transition of the storyline exploration the store\'s flush trigger is forced (vtime seam in chain/db.go) after every single block apply/revert; every committed image captured by the recording DB is reopened with NewDBStore+NewManager and must reopen to a tip the node held, pass the best-chain audit, equal a linear node\'s store, and after resubmitting the history reach the uninterrupted run\'s tip and store.',
+   note='Commit boundaries at chain.DB.Flush granularity; torn writes below the DB abstraction (bbolt) trusted. Shared-window-end storylines excluded (recorded C02 finding).',
+   technique='exhaustive crash-point enumeration over all commit images of every explored history, on the real store', design='§4 C03'),
+ 'C19': dict(level='model_checking', engine='chainmc',
+   text='Explicit-state BFS over submissions and PruneBlocks(h) (h in 0..3, tip-1..tip+5) on comb and fork-shape universes in 3 regimes with an unpruned twin: bodies below the prune height gone and only those, states/headers/index intact, tip state and History equal to the twin, MinReorgIndex exact, reorgs with fork point at/above it behave like the twin, below it fail cleanly without changing the store, requests needing pruned bodies error.',
+   note='Depth and universe bounds as in evidence; twin is the same implementation without prunes, states additionally audited against the core/consensus replay.',
+   technique='explicit-state model checking of the implementation with a differential unpruned twin', design='§4 C19'),
  'C17': dict(level='model_checking', engine='kvmc',
    text='Explicit-state enumeration of every applicable operation sequence up to length L (quick 5 / thorough 7 in-memory, 4 / 5 Bolt) over a 2x2x3 bucket/key/value alphabet on MemDB, CacheDB(MemDB), CacheDB(CacheDB(MemDB)), BoltChainDB and CacheDB(BoltChainDB); every Bucket/Get/Iter observation after every operation is compared with a two-map reference model.',
    note='nil-valued puts excluded; nil and empty Get results not distinguished; bbolt atomic commit trusted. Chain-level clause is exercised by the C02 backend replay.',
